@@ -72,6 +72,9 @@ def ranking_case(rnd, rule, maxn=6):
         cfg["score_vector"] = [canon.fs(F(v)) for v in vec]
         # any sequence of numbers is a score vector: list / tuple, Fractions / floats (floats only where they are exact)
         cfg["sv_type"] = ["list", "tuple", "float"][int(canon.jhash(cfg["score_vector"])[:2], 16) % 3]
+    if tag != "scale" and rnd.random() < gen.DRESS_P:
+        # the same votes in an unusual but valid shape (zero-weight ballots, ids / voter sets, scores next to the rankings)
+        spec, tag = gen.dress(rnd, spec), tag + "+dressed"
     return {"cfg": cfg, "profile": spec, "tag": tag}
 
 
@@ -110,6 +113,11 @@ def directed_cases():
     # PluralityVeto: score tiebreak on a working profile that contains an exhausted ballot
     out.append({"cfg": {"rule": "PluralityVeto", "m": 1, "tiebreak": "first_place"},
                 "profile": P(["A", "B", "C"], [B("A", 1), canon.spec_ballot(r=[["C", "B"]], w=1)]), "tag": "dir-pv-tiebreak"})
+    # a ranked ballot that also scores a candidate it does not rank: once its ranked candidates have left the count, the ballot
+    # survives with its scores and no ranking (known finding mixed-ballot-ranking-exhausted)
+    out.append({"cfg": {"rule": "IRV", "quota": "droop", "tiebreak": "random"},
+                "profile": P(["A", "B", "C"], [canon.spec_ballot(r=[["A"]], w=2, s={"A": 1, "C": 1}), B("BC", 3), B("CB", 3)]),
+                "tag": "dir-mixed-exhausted"})
     # TopTwo single candidate (repaired: must not fail any more)
     out.append({"cfg": {"rule": "TopTwo", "tiebreak": None}, "profile": P(["A"], [B("A", 3)]), "tag": "dir-toptwo-single"})
     # Alaska whose STV stage needs a random elimination tie-break (replay re-draw)
